@@ -82,6 +82,18 @@ def _target(case, w):
     return t
 
 
+def _payload(case):
+    """the cube's values, flat: halves as float64, or (every third case) whole numbers held as int64 or float32"""
+    import zlib
+    n = int(np.prod(case["shape"]))
+    k = zlib.crc32(case["key"].encode()) % 6
+    if k == 0:
+        return np.arange(n, dtype=np.int64) + 1
+    if k == 1:
+        return (np.arange(n) * 2 + 1).astype(np.float32)
+    return np.arange(n, dtype=float) * 0.5 + 1
+
+
 def run(case):
     import astropy.units as u
     from astropy.wcs.wcsapi import SlicedLowLevelWCS
@@ -89,7 +101,7 @@ def run(case):
     shape = tuple(case["shape"])
     nd = len(shape)
     w = _source_wcs(case)
-    data = (np.arange(int(np.prod(shape)), dtype=float) * 0.5 + 1).reshape(shape)
+    data = _payload(case).reshape(shape)
     cube = NDCube(data.copy(), wcs=w, unit=u.ct, meta={"origin": "probe", "k": [1, 2]}, mask=np.zeros(shape, dtype=bool))
     cube.global_coords.add("g", "custom:g", 3 * u.s)
     t = _target(case, w)
@@ -217,7 +229,7 @@ def coq_case(case, res):
     o = res["out"]
     shape = case["shape"]
     nd = len(shape)
-    data = [Fr(float(v)) for v in (np.arange(int(np.prod(shape)), dtype=float) * 0.5 + 1)]
+    data = [Fr(float(v)) for v in _payload(case)]
     alg = ALGS.get(case["alg"], "AUnknown")
     tsh = "None" if case["tshape"] is None else f"(Some {Q.lst(case['tshape'], Q.z)})"
     tgt = f"(mkT {Q.nat(nd)} {Q.nat(nd)} {Q.b(res['two_d_cel'])} {Q.lst([Q.s(x)[:-7] for x in res['ttypes']])} {tsh})"
